@@ -237,3 +237,33 @@ func VerifH_CloseRacesNewStream() {
 	vrt.Assert(vrt.Unfinished() == 0, "no library goroutine is left behind")
 	vrt.Cover("close-races-newstream-end")
 }
+
+// VerifH_CloseRacesServerStream: server side. An invoke and a message for it are on the wire
+// when NewServerStream and Close are issued concurrently: both return, the transport is
+// closed once, a stream handed out is cancelled, nothing is left behind.
+func VerifH_CloseRacesServerStream() {
+	tr := &hx.Transport{}
+	m := NewWithOptions(tr, Options{})
+	if vrt.Bool("withMetadata") {
+		tr.Feed(hx.Pkt(drpcwire.KindInvokeMetadata, 1, 1, false, []byte{0x0a, 0x04, 0x0a, 0x00, 0x12, 0x00}))
+		tr.Feed(hx.Pkt(drpcwire.KindInvoke, 1, 2, false, []byte("rpc")))
+		tr.Feed(hx.Pkt(drpcwire.KindMessage, 1, 3, false, []byte{7}))
+	} else {
+		tr.Feed(hx.Pkt(drpcwire.KindInvoke, 1, 1, false, []byte("rpc")))
+		tr.Feed(hx.Pkt(drpcwire.KindMessage, 1, 2, false, []byte{7}))
+	}
+	var st *drpcstream.Stream
+	var serr error
+	sdone, cdone := false, false
+	go func() { st, _, serr = m.NewServerStream(hx.NewCtx()); sdone = true }()
+	go func() { _ = m.Close(); cdone = true }()
+	vrt.Quiesce()
+	vrt.Assert(cdone, "Close returns while a NewServerStream races with it")
+	vrt.Assert(sdone, "the racing NewServerStream returns")
+	vrt.Assert(tr.Closes == 1, "the transport is closed exactly once")
+	if serr == nil && st != nil {
+		vrt.Assert(hx.IsClosedCh(st.Context().Done()), "a stream handed out while closing is cancelled")
+	}
+	vrt.Assert(vrt.Unfinished() == 0, "no library goroutine is left behind")
+	vrt.Cover("close-races-serverstream-end")
+}
